@@ -6,7 +6,15 @@ SPEC = {'id': 'C01',
               ('Snowflake.Props.C01', 'Snowflake.C01.frames_prefix_closed'),
               ('Snowflake.Props.C01', 'Snowflake.C01.honest_lossy_upstream'),
               ('Snowflake.Props.C01', 'Snowflake.C01.honest_lossy_downstream'),
-              ('Snowflake.Props.C01', 'Snowflake.C01.e2e_exact'),
+              ('Snowflake.Props.C01', 'Snowflake.C01.upstream_only_sent'),
+              ('Snowflake.Props.C01', 'Snowflake.C01.downstream_only_sent'),
+              ('Snowflake.Props.C01', 'Snowflake.C01.arrivals_honest'),
+              ('Snowflake.Props.C01', 'Snowflake.C01.e2e_prefix_safe'),
+              ('Snowflake.Props.C01', 'Snowflake.C01.e2e_never_taken_back'),
+              ('Snowflake.Props.C01', 'Snowflake.C01.e2e_exact_partial'),
+              ('Snowflake.Props.C01', 'Snowflake.Reasm.delivered_prefix'),
+              ('Snowflake.Props.C01', 'Snowflake.Reasm.delivered_exact'),
+              ('Snowflake.Props.C01', 'Snowflake.Reasm.delivered_mono'),
               ('Snowflake.Props.C05', 'Snowflake.Server.C05.upstream_exact'),
               ('Snowflake.Props.C05', 'Snowflake.Server.C05.downstream_only_to_same_id'),
               ('Snowflake.Props.C09', 'Snowflake.Encap.C09.fragmentation_independent')],
@@ -30,17 +38,27 @@ SPEC = {'id': 'C01',
                'packets before it), so the server hands the peer KCP an in-order, byte-identical prefix of what the '
                'client KCP wrote on each carrier (honest_lossy_upstream, over the C05 server model), and symmetrically '
                'downstream through any reader fragmentation (C09) with packets going only to carriers of the same '
-               'ClientID. kcp-go/smux turning this lossy datagram service into a reliable stream is an explicit '
-               'hypothesis (KcpSmuxReliable), not proved. The wiring assumed by the theorems is tied to newSession / '
+               'ClientID; so everything a session receives is a datagram its peer wrote (upstream_only_sent, '
+               'downstream_only_sent). Over any such service - arbitrary loss, duplication, reordering, any number of '
+               'carriers - a receiver that reassembles by segment number hands the reader at every moment a whole-segment '
+               'prefix of the written stream (e2e_prefix_safe: nothing missing in the middle, duplicated, reordered or '
+               'foreign), never takes bytes back (e2e_never_taken_back), and has handed over exactly the written stream once '
+               'every segment got through (e2e_exact_partial). What remains assumed about kcp-go/smux is stated as two '
+               'explicit hypotheses of those theorems: their datagrams carry numbered segments that decode to what was '
+               'encoded (SegCodec), and they retransmit until every segment got through while some working proxy is '
+               'available. The wiring assumed by the theorems is tied to newSession / '
                'turbotunnelMode by regenerated skeletons; the composed real stack is exercised end to end under '
                'generated carrier faults with an exact stream oracle in both directions.',
- 'level_note': 'Trusted/not modelled: kcp-go, smux (reliability, ordering, liveness), gorilla/websocket, the WebRTC '
+ 'level_note': 'Trusted/not modelled: kcp-go and smux beyond the two hypotheses (numbered-segment datagram codec; '
+               'retransmission until delivered) - their windowing, acknowledgements, keep-alives and stream multiplexing '
+               'are not modelled and the reassembly model (Model/Reasm.lean) is not tied to their source; gorilla/websocket, the WebRTC '
                "data channel and the proxy's copy loop (carriers in the harness are WebSockets straight to the "
                "server), timing (staleness 20 s, reconnect 10 s). The harness replicates newSession's wiring by hand "
                "because WebRTCPeer cannot be faked; the skeleton tie re-checks that wiring. RedialPacketConn's 'no "
                "surfaced error' is the C17 theorem.",
  'design_ref': 'DESIGN.md §5.1',
- 'assumptions': ['KcpSmuxReliable',
+ 'assumptions': ['SegCodec: the reliability layer\'s datagrams carry a segment number and payload and decode to what was encoded',
+                 'the reliability layer retransmits until every segment got through (e2e_exact_partial only)',
                  'carriers deliver bytes in order and unmodified while alive',
                  'some working carrier eventually becomes available'],
  'race': True}
